@@ -24,9 +24,22 @@ from klepto import archives as _ka  # noqa: E402
 
 ALGOS = ['no', 'inf', 'lfu', 'lru', 'mru', 'rr']
 BOUNDED = ('lfu', 'lru', 'mru', 'rr')
+class _CustomBase(BaseException):
+    pass
+
+
+class _KeyErrorSub(KeyError):
+    pass
+
+
 EXC_TYPES = {'ValueError': ValueError, 'KeyError': KeyError, 'TypeError': TypeError,
              'IndexError': IndexError, 'RuntimeError': RuntimeError,
-             'ZeroDivisionError': ZeroDivisionError}
+             'ZeroDivisionError': ZeroDivisionError,
+             # the types klepto's own handlers catch, their subclasses, and exceptions outside Exception
+             'KeyErrorSub': _KeyErrorSub, 'LookupError': LookupError, 'AttributeError': AttributeError,
+             'OSError': OSError, 'StopIteration': StopIteration, 'KeyboardInterrupt': KeyboardInterrupt,
+             'SystemExit': SystemExit, 'GeneratorExit': GeneratorExit, 'CustomBase': _CustomBase,
+             'MemoryError': MemoryError, 'RecursionError': RecursionError}
 
 
 class MonCache(_ka.cache):
